@@ -47,7 +47,8 @@ def complete_copy(dirs, tid, recs):
 
 def run_point(arg):
     chk, drv, plain = _CTX["chk"], _CTX["drv"], _CTX["plain"]
-    name, script, mode, sc, k, err = arg
+    name, script, mode, sc, k, err = arg[:6]
+    onpath = arg[6] if len(arg) > 6 else None        # fault only on calls touching this file (relative to the work dir)
     wd = os.path.join(chk.scratch, "f-%d" % os.getpid())
     shutil.rmtree(wd, ignore_errors=True)
     os.makedirs(wd)
@@ -60,8 +61,12 @@ def run_point(arg):
             r = rt.run_script(drv, script, wd, env=e, timeout=120, inline=True)
             res["fired"] = "shortwrites=0" not in r.out
         else:
-            r = rt.run_script(drv, script, wd, env=env, timeout=120, inline=True,
-                              wrapper=inject.strace_argv(log, "%s:error=%s:when=%d" % (sc, err, k)))
+            paths = None
+            if onpath:
+                base_ = env["OVNI_TMPDIR"] if onpath.startswith("TMP/") else os.path.join(wd, "trace")
+                paths = [os.path.join(base_, onpath.split("/", 1)[1])]
+            r = rt.run_script(drv, script, wd, env=env, timeout=120, inline=not onpath,
+                              wrapper=inject.strace_argv(log, "%s:error=%s:when=%d" % (sc, err, k), paths=paths))
             res["fired"] = inject.fired_error(log)
         if r.timeout:
             res["fired"] = False
@@ -142,7 +147,7 @@ def main(argv):
     c09._CTX.update(chk=chk, plain=plain, drv=drv, disk=disk)
     quick = chk.tier == "quick"
     scripts = [("single-small", c09.script_single("small")), ("single-bigmeta", c09.script_single("bigmeta")),
-               ("single-nearcap", c09.script_single("nearcap"))]
+               ("single-nearcap", c09.script_single("nearcap")), ("single-autoflush-normal", c09.script_single("autoflush-normal"))]
     if not quick:
         scripts.append(("single-autoflush", c09.script_single("autoflush")))
         al = rt.align_script(drv, c09.script_single("small"), 1024, chk.scratch, inline=True)
@@ -182,6 +187,15 @@ def main(argv):
             npoints["%s/%s" % (name, mode)] = len(pts)
             for seed in range(1, 6 if quick else 30):
                 work.append((name, script, mode, "SHORTWRITE", seed, "partial"))
+    # two threads relocating one after the other (the first has finished before the
+    # second is freed): a fault that hits only the first thread's files
+    two = c09.script_two_ordered()
+    for mode in [m for m in modes if m != "direct"]:
+        for sc in ("write", "openat", "close"):
+            for err in ("ENOSPC", "EIO"):
+                work.append(("two-ordered", two, mode, sc, 1, err, "FINAL/loom.node/proc.77/thread.500/stream.obs"))
+        work.append(("two-ordered", two, mode, "read", 1, "EIO", "TMP/loom.node/proc.77/thread.500/stream.obs"))
+        work.append(("two-ordered", two, mode, "write", 1, "ENOSPC", "FINAL/loom.node/proc.77/thread.500/stream.json"))
     fired = nofire = 0
     outcomes = {}
     sites = set()
